@@ -222,7 +222,11 @@ type c16Spec struct {
 	poolFIFO bool
 	// listenerCloseErr: the listener's Close reports an error (it is closed all the same)
 	listenerCloseErr bool
-	desc             string
+	// serveAgain: after every Close call has returned, Serve is called once more (with a fresh listener) and the
+	// connections that were idle during Close send `late` (a Query): Close is final, nothing runs any more
+	serveAgain bool
+	late       []byte
+	desc       string
 }
 
 func c16Specs() []c16Spec {
@@ -254,6 +258,10 @@ func c16Specs() []c16Spec {
 			desc: "a client that stops half-way through a message larger than the limit (its body is being skipped) next to a normal one + Close: nobody waits for the rest of that body"},
 		{name: "X16", conns: []c16Conn{{"c1", [][]byte{start, q}}}, closers: 1, secondClose: true, listenerCloseErr: true,
 			desc: "a listener whose Close reports an error (e.g. its owner had closed it already) while a connection is inside a handler + Close + a second Close: the handlers are waited for all the same"},
+		{name: "X17", conns: []c16Conn{{"c1", [][]byte{start}}}, closers: 1, serveAgain: true, late: q,
+			desc: "an idle connection + Close; after Close returned Serve is called again with another listener and the idle connection sends a Query: no parser or statement function begins executing any more"},
+		{name: "X18", conns: []c16Conn{{"c1", [][]byte{start, pgproto.Parse("", "q")}}, {"c2", [][]byte{start, pgproto.Parse("s", "q"), pgproto.Bind("", "s", nil, nil, nil)}}}, closers: 1,
+			desc: "clients that stop in the middle of an extended-query cycle (Parse / Parse + Bind, no Sync) and stay connected + Close: a command that has finished holds up nobody"},
 		{name: "X8", conns: []c16Conn{{"c1", [][]byte{start, q}}}, closers: 1, acceptFault: true,
 			desc: "the listener fails with an Accept error (Serve returns it) while a connection is inside a handler, then Close"},
 	}
@@ -334,6 +342,16 @@ func c16Scenario(spec c16Spec) *Scenario {
 				// "Close stops the accept loop so that Serve returns": with the clients still connected (idle, or in
 				// the middle of a message) every Serve call must return now, not only once they have gone away
 				vsched.Cond("serve-returns-while-clients-stay-connected", uintptr(unsafe.Pointer(log)), log.allServed(max(spec.listeners, 1)))
+				if spec.serveAgain {
+					l2 := memnet.NewSListener()
+					vsched.RegisterObject("listener-again", unsafe.Pointer(l2), unsafe.Sizeof(*l2))
+					vsched.Go(func() { srv.Serve(l2) })
+					for _, sc := range conns {
+						sc.Push(spec.late)
+					}
+					vsched.Yield("after-late-query")
+					l2.Close()
+				}
 				// let every remaining thread finish: the clients go away
 				for _, sc := range conns {
 					sc.EOF()
